@@ -17,6 +17,7 @@ import ProphyModel.Properties.Tables
 import ProphyModel.Properties.DocExamples
 import ProphyModel.Lemmas.Statics
 import ProphyModel.Lemmas.PyEncode
+import ProphyModel.Lemmas.WFAccept
 namespace Prophy.C01
 open Prophy
 
@@ -29,6 +30,14 @@ theorem C01_py_encode_canonical (t : Ty) (v : Val) (e : Endian)
     (hw : WF.wfTy t = true) (hv : hasType t v = true) (ha : WF.agreeTy t v = true) :
     Py.encode t v e = .ok (Spec.enc t v e) :=
   Py.encode_canonical t v e hw hv ha
+
+/-- the same for every schema that prophyc accepts and the runtime imports (C12 bridges the
+    hypotheses): no assumption on the schema beyond acceptance by the real tool chain's models -/
+theorem C01_accepted_encode_canonical (t : Ty) (v : Val) (e : Endian)
+    (hf : Accept.front t = true) (hp : Accept.pyRt t = true)
+    (hv : hasType t v = true) (ha : WF.agreeTy t v = true) :
+    Py.encode t v e = .ok (Spec.enc t v e) :=
+  Py.encode_canonical t v e (Accept.wf_of_accept t hf hp) hv ha
 
 /-- the length of what encode returns is the sum of the documented chunk lengths -/
 theorem C01_py_encode_length (t : Ty) (v : Val) (e : Endian) (b : Bytes)
@@ -56,5 +65,6 @@ def exV : Val := .struct
     .present (.int 7), .sizer, .arr [.int 1], .union 1 (.int 77) ]
 
 example : WF.wfTy exT = true ∧ hasType exT exV = true ∧ WF.agreeTy exT exV = true := by decide
+example : Accept.front exT = true ∧ Accept.pyRt exT = true := by decide
 
 end Prophy.C01
